@@ -649,6 +649,14 @@ def run(ctx):
     known = known_commands()
     counts: dict = {}
 
+    if ctx.replay:                      # ./check C19 --replay <file>: exactly that tree / that OMML
+        case = json.loads(Path(ctx.replay).read_text())["case"]
+        obs = _observe(ctx, [{"id": "replay", "tree": case["tree"], "xml": case["omml"]}], known, "replay", nproc=1)
+        _judge(ctx, obs, "replayed case", counts)
+        ev.sample({"omml": case["omml"][:300], "latex": obs[0]["out"]["s"]})
+        ev.set(rule="one replayed case", exhaustive=False)
+        return
+
     # ---- 1. per universe part (in parallel): TLC theorem run + dump -> replay -> TLC trace validation;
     #         sensitivity runs alongside
     def enum(parts):
